@@ -1,4 +1,5 @@
 import RichModel.Lemmas.Color
+import RichModel.Lemmas.ColorExtra
 /-!
 # C18 — colour down-conversion stays in gamut, is idempotent and picks the nearest entry
 
@@ -158,6 +159,118 @@ theorem ansi_codes_after_downgrade (cfg : Cfg) (c : Color) (sys : ColorSystem) (
   · exact hg
   · exact hg.1
 
+/-! ## What a colour is displayed as: `get_truecolor`, terminal themes -/
+
+/-- Side condition on the *generated* default theme: `DEFAULT_TERMINAL_THEME.ansi_colors` has 16 entries. -/
+theorem default_theme_ok : P.defaultTheme.ansiColors.length = 16 := by decide +kernel
+
+/-- `TerminalTheme(background, foreground, normal, bright)` holds `normal + (bright or normal)`
+(an empty `bright` counts as absent), and the two colours it was given. -/
+theorem theme_init_spec (bg fg : Triplet) (normal : List Triplet) (bright : Option (List Triplet)) :
+    (TerminalTheme.init bg fg normal bright).ansiColors =
+      normal ++ (match bright with | some (b :: bs) => b :: bs | _ => normal) ∧
+    (TerminalTheme.init bg fg normal bright).backgroundColor = bg ∧
+    (TerminalTheme.init bg fg normal bright).foregroundColor = fg :=
+  themeInit_ansiColors bg fg normal bright
+
+/-- With 8 normal colours and 8 (or no, or an empty list of) bright colours, `ansi_colors` has 16 entries. -/
+theorem theme_init_length (bg fg : Triplet) (normal : List Triplet) (bright : Option (List Triplet))
+    (hn : normal.length = 8) (hb : ∀ b, bright = some b → b.length = 8 ∨ b = []) :
+    (TerminalTheme.init bg fg normal bright).ansiColors.length = 16 :=
+  themeInit_length bg fg normal bright hn hb
+
+/-- **`get_truecolor` specification and totality**: for every well-formed colour and every theme with
+(at least) 16 ANSI colours the call succeeds and returns: a truecolor colour's own triplet;
+`EIGHT_BIT_PALETTE[n]`; `theme.ansi_colors[n]` for STANDARD; `WINDOWS_PALETTE[n]`; the theme's
+foreground / background colour for the default colour, chosen by `foreground`. -/
+theorem get_truecolor_spec (theme : TerminalTheme) (hT : 16 ≤ theme.ansiColors.length)
+    (c : Color) (fg : Bool) (h : c.WF) :
+    ∃ t, getTruecolorT P theme c fg = .ok t ∧ truecolorSpec P theme c fg = some t :=
+  getTruecolorT_spec P palettes_ok theme hT c fg h
+
+/-- …for `theme=None` (the default terminal theme). -/
+theorem get_truecolor_default_theme (c : Color) (fg : Bool) (h : c.WF) :
+    ∃ t, getTruecolor P c fg = .ok t ∧ truecolorSpec P P.defaultTheme c fg = some t :=
+  getTruecolorT_spec P palettes_ok P.defaultTheme (Nat.le_of_eq default_theme_ok.symm) c fg h
+
+/-- Whenever `get_truecolor` returns (any colour object, any palettes, any theme), it returns what
+the specification says — the only error-free route outside the specification is ruled out by the
+`assert self.number is None` of the default branch. -/
+theorem get_truecolor_sound (Q : Palettes) (theme : TerminalTheme) (c : Color) (fg : Bool) (t : Triplet)
+    (h : getTruecolorT Q theme c fg = .ok t) : truecolorSpec Q theme c fg = some t := by
+  refine getTruecolorT_sound Q theme c fg t h ?_
+  intro hd
+  obtain ⟨name, type, number, triplet⟩ := c
+  simp only at hd; subst hd
+  cases number with
+  | none => rfl
+  | some n => simp [getTruecolorT] at h
+
+/-- **The RGB a colour downgraded to 16 colours denotes is the entry at the matched index**: for a
+truecolor or 8-bit (≥ 16) colour with source RGB `t`, `get_truecolor` of the downgraded colour is entry
+`k` of the palette it is displayed with, where `k` is the first nearest entry of the *search* palette.
+For WINDOWS the display palette **is** the search palette (`WINDOWS_PALETTE`), so the colour shown is
+exactly the matched entry; for STANDARD the search runs over `STANDARD_PALETTE` while the display
+palette is the theme's `ansi_colors` (see `standard_display_is_theme_dependent`). -/
+theorem downgrade_then_truecolor_is_palette_entry (cfg : Cfg) (Q : Palettes) (theme : TerminalTheme)
+    (c r : Color) (sys : ColorSystem) (t : Triplet) (fg : Bool)
+    (hsys : sys = .standard ∨ sys = .windows)
+    (hsrc : sourceTriplet Q c = some t)
+    (hbig : c.type = .eightBit → ∀ n, c.number = some n → 16 ≤ n)
+    (h : downgrade cfg Q c sys = .ok r) :
+    ∃ k, IsNearest (if sys = .windows then Q.windows else Q.standard) t k ∧
+      getTruecolorT Q theme r fg = paletteGet (displayPalette Q theme sys) k :=
+  downgrade16_then_truecolor cfg Q theme c r sys t fg hsys hsrc hbig h
+
+/-- WINDOWS, spelled out: the triplet shown is the nearest `WINDOWS_PALETTE` entry itself. -/
+theorem downgrade_windows_shows_matched_entry (cfg : Cfg) (Q : Palettes) (theme : TerminalTheme)
+    (c r : Color) (t : Triplet) (fg : Bool)
+    (hsrc : sourceTriplet Q c = some t)
+    (hbig : c.type = .eightBit → ∀ n, c.number = some n → 16 ≤ n)
+    (h : downgrade cfg Q c .windows = .ok r) :
+    ∃ k p, IsNearest Q.windows t k ∧ Q.windows[k]? = some p ∧ getTruecolorT Q theme r fg = .ok p := by
+  obtain ⟨k, hk, hg⟩ := downgrade16_then_truecolor cfg Q theme c r .windows t fg (Or.inr rfl) hsrc hbig h
+  simp only [if_true, displayPalette] at hk hg
+  obtain ⟨p, hp, _⟩ := hk
+  exact ⟨k, p, ⟨p, hp, by assumption⟩, hp, by rw [hg]; simp [paletteGet, hp]⟩
+
+/-- Truecolor → 256 colours: the colour shown is `EIGHT_BIT_PALETTE[n]` for the computed number `n`. -/
+theorem downgrade_eight_bit_then_truecolor (cfg : Cfg) (theme : TerminalTheme) (name : List Char)
+    (t : Triplet) (ht : t.WF) (fg : Bool) :
+    ∃ r p, downgrade cfg P { name := name, type := .truecolor, number := none, triplet := some t } .eightBit = .ok r ∧
+      P.eightBit[toEightBitNumber cfg.satExc t]? = some p ∧ getTruecolorT P theme r fg = .ok p :=
+  downgrade256_then_truecolor cfg P palettes_ok theme name t ht fg
+
+/-- Observation (not a defect — standard colours are defined by the terminal): with the default
+theme, STANDARD colour 1 is searched as `(170,0,0)` but displayed as `(128,0,0)`. -/
+theorem standard_display_is_theme_dependent :
+    P.standard[1]? = some ⟨170, 0, 0⟩ ∧ getTruecolor P { name := [], type := .standard, number := some 1 } true = .ok ⟨128, 0, 0⟩ := by
+  decide +kernel
+
+/-! ## `ColorTriplet.hex`, `parse_rgb_hex`, `blend_rgb` -/
+
+/-- `parse_rgb_hex` inverts `ColorTriplet.hex` (without its `#`) for every triplet in range. -/
+theorem parse_rgb_hex_roundtrip (t : Triplet) (h : t.WF) :
+    t.hex.length = 7 ∧ parseRgbHex (t.hex.drop 1) = .ok ((t.red : Int), (t.green : Int), (t.blue : Int)) :=
+  parseRgbHex_hex t h
+
+/-- …and raises `AssertionError` on anything that is not six characters long. -/
+theorem parse_rgb_hex_length (s : List Char) (h : s.length ≠ 6) : parseRgbHex s = .error .assertionError :=
+  parseRgbHex_len s h
+
+/-- **`blend_rgb` stays between its arguments** for a cross-fade `k / 2^n` in `[0, 1]` (hence in
+gamut), returns `color1` at 0 and `color2` at 1 — for every `n`. -/
+theorem blend_rgb_in_range (c1 c2 : Nat) (k : Int) (n : Nat) (h0 : 0 ≤ k) (h1 : k ≤ ((2 ^ n : Nat) : Int)) :
+    ((min c1 c2 : Nat) : Int) ≤ blendChannel c1 c2 k n ∧ blendChannel c1 c2 k n ≤ ((max c1 c2 : Nat) : Int) :=
+  blendChannel_range c1 c2 k n h0 h1
+
+theorem blend_rgb_endpoints (t1 t2 : Triplet) (n : Nat) :
+    blendRgb t1 t2 0 n = ((t1.red : Int), (t1.green : Int), (t1.blue : Int)) ∧
+    blendRgb t1 t2 ((2 ^ n : Nat) : Int) n = ((t2.red : Int), (t2.green : Int), (t2.blue : Int)) := by
+  refine ⟨by simp [blendRgb, blendChannel_zero], ?_⟩
+  unfold blendRgb
+  rw [blendChannel_one, blendChannel_one, blendChannel_one]
+
 /-! ## Non-vacuity: the hypotheses are met by concrete, non-trivial values -/
 
 /-- orange, `#ff8700` -/
@@ -174,6 +287,12 @@ example : paletteMatch P.standard ⟨0, 0, 85⟩ = .ok 0 ∧ colorDist2 ⟨0, 0,
 example : satLow satExcDouble ⟨55, 45, 50⟩ = true ∧ satLowExact 55 45 = false := by decide  -- a float exception
 example : getAnsiCodes { name := [], type := .standard, number := some 9 } true = .ok [91] := by decide
 example : getAnsiCodes { name := [], type := .windows, number := some 15 } false = .ok [107] := by decide
+example : getTruecolor P orange true = .ok ⟨255, 135, 0⟩ := rfl
+example : getTruecolorT P (TerminalTheme.init ⟨1, 2, 3⟩ ⟨4, 5, 6⟩ (List.replicate 8 ⟨7, 7, 7⟩) none)
+    { name := [], type := .standard, number := some 12 } true = .ok ⟨7, 7, 7⟩ := by decide
+example : parseRgbHex "ff8700".toList = .ok (255, 135, 0) := by decide
+example : parseRgbHex "-f+a 1".toList = .ok (-15, 10, 1) := by decide  -- what int(…, 16) accepts
+example : blendRgb ⟨0, 0, 0⟩ ⟨255, 255, 255⟩ 1 1 = (127, 127, 127) := by decide
 
 /-! ## Witness: the defect found in rich 9.10.0 as found, before fix 2cec9e1 (variant `stdViaPalette = true`) -/
 
